@@ -20,7 +20,10 @@ from checks.c12 import _one_record as gb_one_record, export as gb_export
 # documented priority lists (io/features/__init__.py docstrings), typed here
 NAME_RANK = {"feature_name": 0, "standard_name": 10, "name": 15, "gene": 20, "gene_name": 30, "label": 40, "operon": 50}
 ID_RANK = {"feature_id": 0, "id": 255}
-LOOKALIKES = ["gene_names", "xid", "idx", "label2", "names", "feature_names", "standard_name_x", "my_gene", "ids"]
+# look-alikes: a recognised key with something before or after it - word characters, and also separators that a regex word
+# boundary would accept ("gene-synonym", "label.color", "ID:previous", "Name (old)")
+LOOKALIKES = ["gene_names", "xid", "idx", "label2", "names", "feature_names", "standard_name_x", "my_gene", "ids",
+              "gene-synonym", "label.color", "ID:previous", "name (old)", "locus_tag/2", "x-id"]
 ALL_KEYS = list(NAME_RANK) + list(ID_RANK) + LOOKALIKES
 
 
@@ -254,6 +257,14 @@ def check_types_merge(spec, ctx):
             expm.setdefault(k, set()).update(v)
     ctx.eq("merge_union_sorted", {k: list(v) for k, v in m.items()}, {k: sorted(v) for k, v in expm.items()})
     ctx.eq("merge_commutes", merge_qualifiers(b, a), m)
+    # the merged dictionary is the caller's: editing its value lists in place must not change what the next merge of the same
+    # inputs returns
+    want_again = {k: list(v) for k, v in m.items()}
+    for v in m.values():
+        if isinstance(v, list):
+            v.append("zzz_edited_by_caller")
+            v.reverse()
+    ctx.eq("merge_again_after_caller_edited_the_result", {k: list(v) for k, v in merge_qualifiers(a, b).items()}, want_again)
     ctx.true("merge_leaves_operands", json.dumps(a, sort_keys=True) == a0 and json.dumps(b, sort_keys=True) == b0)
     if set(a) & set(b):
         ctx.label("shared_keys")
